@@ -279,7 +279,3 @@ func printJobResult(r *JobResult) {
 	}
 }
 
-func cmdCheck(args []string) int {
-	fmt.Fprintln(os.Stderr, "check: not implemented yet")
-	return 2
-}
